@@ -98,6 +98,8 @@ def main() -> int:
         meta["detected_with_failing_input"] = any(k and k != "no-longer-checks" for k in keys)
     finally:
         sh(["git", "-C", REPO, "checkout", "--", "."])
+        # the run above rewrote evidence / Gen from the patched tree: put the committed (clean-tree) versions back
+        sh(["git", "-C", str(VERIF), "checkout", "--", "evidence", "lean/VgiVerif/Gen", "lean/GenBaseline"])
     if with_tests:
         files = TESTS.get(prop, [])
         wt = f"/tmp/seedwt-{name}"
